@@ -349,6 +349,12 @@ def externals(interp_truth=None):
             return v
         if interp_truth is not None:
             return interp_truth(v)
+        p_ = to_poly(v)
+        if p_.is_const():
+            return p_.const_value() != 0
+        from .alg import AutoRegion
+        if isinstance(ext.get("__region__"), AutoRegion):
+            return p_.evalf(ext["__region__"]) != 0  # generic data are non-zero; explicit representatives decide the rest
         raise Undecided("truth of a symbolic value")
 
     def _astensor(a, k):
